@@ -40,7 +40,7 @@ from pathlib import Path
 from typing import Any, Dict, List, Optional, Tuple
 
 ID = "C18"
-LEAN_MODULES = ["FaxVerif.C18.Theorems", "FaxVerif.C18.TheoremsContext", "FaxVerif.C18.TheoremsDigits"]
+LEAN_MODULES = ["FaxVerif.C18.Theorems", "FaxVerif.C18.TheoremsContext", "FaxVerif.C18.TheoremsExpr", "FaxVerif.C18.TheoremsDigits"]
 LEAN_SOURCES = ["FaxVerif/C18", "FaxVerif/Generated/C18Tables.lean"]
 DRIVER = "FaxVerif/C18/Driver.lean"
 THEOREMS = [
@@ -96,6 +96,12 @@ THEOREMS = [
     "FaxVerif.C18.int_literal_type",
     "FaxVerif.C18.int_literal_type_boundaries",
     "FaxVerif.C18.first_message_roundtrip",
+    # the rendered operand expression is the query's expression (TheoremsExpr.lean)
+    "FaxVerif.C18.operand_parse",
+    "FaxVerif.C18.exprok_model_partial",
+    "FaxVerif.C18.exprok_int_counterexample",
+    "FaxVerif.C18.exprok_keyword_counterexample",
+    "FaxVerif.C18.string_at_every_landing_place",
     # decimal digits of a double literal (TheoremsDigits.lean)
     "FaxVerif.C18.seventeen_digits_round_trip",
     "FaxVerif.C18.seventeen_digits_round_trip_at_binade_boundary",
@@ -104,6 +110,8 @@ THEOREMS = [
     "FaxVerif.C18.seventeen_digit_witnesses",
     "FaxVerif.C18.fifteen_digits_counterexample",
     "FaxVerif.C18.sixteen_digits_counterexample",
+    "FaxVerif.C18.roundsTo_of_grid",
+    "FaxVerif.C18.seventeen_digits_roundsTo",
 ]
 RULE = (
     "unit stream: constants of every kind handed to visit_Constant of the real visitors — strings over an alphabet "
@@ -3010,7 +3018,7 @@ LEVEL_TEXT = (
     "regenerated booking lines of all three backends; every numeric constant that reaches a column through conditional expressions "
     "of any depth keeps its value through the conversions on the way (carrier_stored_ok); a constant AS AN OPERAND: for every operand expression "
     "(method calls, constants, unary and binary operators, **, comparisons, any depth) the text the translator writes is lexed by maximal munch into exactly the tokens it was built from "
-    "(operand_tokens — no juxtaposition forms `--`, `++`, `->`, `-=` …), every constant text is ContextSafe after every operator of the translator's operator tables regenerated from "
+    "(operand_tokens — no juxtaposition forms `--`, `++`, `->`, `-=` …), parsed with C++ precedence into exactly the intended tree (operand_parse) which is the query's expression with every constant denoted by its literal and every `/` a floating division (exprok_model_partial: the decidable Spec ExprOk holds of the model's text for ALL operand expressions), every constant text is ContextSafe after every operator of the translator's operator tables regenerated from "
     "the source (const_context_safe), the type of a decimal integer literal at every magnitude (int_literal_type); in an abstract integer grid model of binary64, 17 significant digits "
     "always round-trip and 15 do not (seventeen_digits_round_trip, fifteen_digits_do_not), with kernel-decided witnesses on the real rounding oracle. Where the code violates the property the negation is proved on a "
     "literal (int 3000000000, 2^64, NUL through const char*) and replayed on the real code; repaired "
@@ -3024,8 +3032,8 @@ LEVEL_NOTE = (
     "Sampled only: that the hand model equals the Python (differential execution), that repr(x) rounds to x (exact check per "
     "sample), that the Lean lexer equals g++'s (echo program). Excluded by explicit hypotheses and listed as findings: ints "
     "outside 32 bit, NUL through const char*. "
-    "Operands: operand_tokens is universal (tokenization); that the token sequence parses to the query's expression (ExprOk) is proved on witnesses only and evaluated on the implementation's text per case. "
-    "Digits: the 17-digit theorem is about an abstract grid model (integers scaled by a common factor); it is tied to the rounding oracle roundsTo by kernel-decided witnesses only. "
+    "Operands: operand_tokens (tokenization), operand_parse (precedence parser) and exprok_model_partial (the whole Spec ExprOk on the model's text) are universal over operand expressions of any depth; partial only in int constants outside 32 bit (the listed finding; exprok_int_counterexample) and the loop variable not being the keyword static_cast. On the implementation's text ExprOk is evaluated per case. "
+    "Digits: the 17-digit theorem is about an abstract grid model (integers scaled by a common factor); it is tied to the rounding oracle by roundsTo_of_grid / seventeen_digits_roundsTo for every finite non-zero double that is not a binade boundary (there: witnesses only). "
     "Stored constants: the theorem is about the model's conversion chains; that the generated code has these chains is sampled (chain read off the loop body + g++ run)."
 )
 TECHNIQUE = "Lean 4 theorems over a hand model, a Lean lexer of C++ literals and a Lean C++ tokenizer (maximal munch) + tables regenerated from the source + correspondence check against visit_Constant / the pipeline of all three backends + g++ echo of the emitted literals and g++ runs of the generated loop bodies"
